@@ -146,8 +146,8 @@ Proof.
       destruct (Hg Hs) as [s1 [sched1 [H1 [H2 H3]]]].
       split; [exact Hwf|]. split.
       * rewrite H3. unfold newfile. rewrite forallb_app. apply andb_true_iff. split.
-        -- apply cset_nr. apply (batches_never_repeat mk mi s1 sched1 H1).
-        -- apply (i_nr mk mi s1). apply inv1_run; [exact H2 | apply inv1_init; exact H1].
+        -- apply cset_nr. apply (proj1 (batches_never_repeat mk mi s1 sched1 H1)).
+        -- apply (i_nr s1). apply inv1_run; [exact H2 | apply inv1_init; exact H1].
       * split; [|intros Hx; cbn in Hx; discriminate].
         rewrite H3. apply concurrent_partial; [exact H1 | exact H2 | rewrite <- H3; exact Hd].
     + rewrite final_not_ready by exact Hc. split; [exact Hwf|]. split; [exact Hnr|]. split; [exact Hsd|]. exact Hg.
